@@ -308,6 +308,7 @@ func Run(seed uint64, index int64, o hx.Opts) *hx.Result {
 	en := hx.AllKinds()
 	en[rt.KDrop], en[rt.KDup], en[rt.KTimeSkip] = false, false, false
 	cfg := rt.Config{Seed: seed, Replay: o.Replay, Verbose: o.Verbose, NPoints: o.NPoints, Bias: hx.Swarm(seed, en), MaxSteps: 3_000_000}
+	cfg.PCT = hx.SwarmPCT(seed)
 	w := rt.NewWorld(cfg)
 	w.NoSkip = true
 	simnet.RegisterCrossover("10.0.0.99:139")
